@@ -17,6 +17,8 @@ CLAIM = (
     "only through all front-end stages and main.execute pairs its exit code with stderr; (7) no attribute is read from a union-typed "
     "value when a member of the union lacks it (isinstance narrowing followed through boolean operators, conditional expressions, "
     "comprehensions, asserts); (8) docutils, re.compile and ast.parse run on input-derived text only inside handlers covering their failures."
+    " KEYED: a local mapping that is subscripted with the elements of a local list receives an entry for every element appended to that list "
+    "(otherwise the report that uses the mapping raises KeyError)."
 )
 NOTE = (
     "Trusted base: the resolver and CFG; the frozen table of lengths guaranteed by the Python grammar; one named exception "
@@ -78,3 +80,10 @@ def run(ctx) -> None:
     from .c28 import FRONT, _in_cache_branch
     seq.check_sequence(ctx, lm, "SEQ", FRONT, lambda n: seq.returns_value_none(n) and not _in_cache_branch(lm, n), "load_model: ")
     exitcode.check_exit_contract(ctx, p.func("main:execute"), "ERR4")
+
+    ctx.rule("KEYED", "a local mapping subscripted with elements of a local list has an entry for every appended element", floor=1)
+    from ..rules import keyed as _keyed
+    for _m in ctx.p.modules.values():
+        if _m.name.startswith(("aas_core_codegen.parse", "aas_core_codegen.intermediate")):
+            for _f in _m.functions.values():
+                _keyed.check_keyed(ctx, _f, "KEYED")
